@@ -6020,7 +6020,9 @@ class FlowIRConcrete(object):
             component = self._component_dictionary[comp_id]
 
             component.clear()
-            component.update(new_flowir)
+            # VV: Store a private copy: `new_flowir` (and whatever it shares nested dictionaries with, e.g. other
+            # components that the caller built out of the same template) must not be an alias of the description
+            component.update(deep_copy(new_flowir))
 
             self.invalidate_cache_for_component(comp_id)
 
